@@ -250,7 +250,7 @@ func (t *tr) absIndexGuard(e *ast.IndexExpr) ([]string, bool) {
 }
 
 // viewThroughAll: the caller holds the whole array, the callee wants the constant-index view v: `ws_all.getD K 0`
-func (t *tr) viewThroughAll(ab *absParam, v viewInfo) (string, bool) {
+func (t *tr) viewThroughAll(ab *absParam, v viewInfo, calleeDir string) (string, bool) {
 	if len(v.path) != 1 || !strings.HasPrefix(v.path[0], "[") || v.path[0] == "[all]" {
 		return "", false
 	}
@@ -262,6 +262,11 @@ func (t *tr) viewThroughAll(ab *absParam, v viewInfo) (string, bool) {
 		return "", false
 	}
 	name := strings.Trim(v.path[0], "[]")
+	if calleeDir != t.spec.dir {
+		// the index constant is named in the callee's whitelist entry and resolved in the caller's package
+		t.err2("view %s.%s of a callee in another package (%s)", ab.name, v.path[0], calleeDir)
+		return "?", true
+	}
 	k := ""
 	if c, isConst := t.p.pkg.Scope().Lookup(name).(*types.Const); isConst {
 		k = constant.ToInt(c.Val()).ExactString()
